@@ -2,7 +2,7 @@
 # seedtool.sh verify <seeddir> <demo-target-dir-relative> <run-pattern> [pkg]
 #     confirms in a scratch worktree of /repo HEAD: patch applies, demo fails with / passes without, suite unchanged
 # seedtool.sh detect <seeddir> <PROPID> [tier]
-#     applies the patch to /repo, runs ./check, reverts
+#     applies the patch to a scratch worktree and runs ./check against it (VERIF_REPO)
 # seedtool.sh keep <seeddir> <name>     copies into /verif/seeded/<name>/
 export GOFLAGS=-mod=mod GOPROXY=off
 cmd=$1; shift
@@ -22,13 +22,14 @@ verify)
   echo "--- suite WITH change"; go test -vet=off -count=1 ./... 2>&1 | grep -v "no test files" | grep -E "^(--- FAIL|FAIL|ok|panic)" | grep -v "build failed" | head -20
   ;;
 detect)
+  # builds the check against a scratch worktree of /repo HEAD with the patch applied (VERIF_REPO): /repo is not touched
   sd=$1; id=$2; tier=${3:-quick}
-  cd /repo
-  if [ -n "$(git status --porcelain --untracked-files=no)" ]; then echo "/repo not clean"; exit 2; fi
-  git apply $sd/patch.diff || exit 3
-  trap "git -C /repo checkout -- ." EXIT
+  wt=/tmp/seeddetect-$$
+  git -C /repo worktree add -q --detach $wt HEAD || exit 2
+  trap "git -C /repo worktree remove --force $wt" EXIT
+  (cd $wt && git apply $sd/patch.diff) || exit 3
   cd /verif; t0=$(date +%s)
-  ./check $id --tier $tier 2>&1 | grep -E "VIOLATION|INCONCLUSIVE|^property=|^  \[" | head -8
+  VERIF_REPO=$wt ./check $id --tier $tier 2>&1 | grep -E "VIOLATION|INCONCLUSIVE|^property=|^  \[" | head -8
   echo "exit=${PIPESTATUS[0]} wall=$(( $(date +%s) - t0 ))s"
   ;;
 keep)
